@@ -529,12 +529,6 @@ double iwstrtod(const char *str, char **end) {
       goto done;
     }
 
-    if (d == 2.2250738585072011 && e == -308) {
-      d = 0.0;
-      a = p;
-      errno = ERANGE;
-      goto done;
-    }
     if (d == 2.2250738585072012 && e == -308) { // only this exponent: 2.2250738585072012e-309 is ten times smaller
       d *= 1.0e-308;
       a = p;
